@@ -8,6 +8,7 @@
 /* ghost for C13: number of in-place swaps applied to the caller's buffer */
 const void *g_user_buf; int g_user_swaps;
 extern long long g_decoded_nbytes;   /* ghost: bytes the request decodes to */
+extern int g_decoded_contig;         /* ghost: the buffer datatype decodes as contiguous */
 #define IS_TYPE_VALUE(t) ((t) == MPI_BYTE || (t) == MPI_CHAR || (t) == MPI_SIGNED_CHAR || (t) == MPI_UNSIGNED_CHAR || (t) == MPI_SHORT || \
     (t) == MPI_UNSIGNED_SHORT || (t) == MPI_INT || (t) == MPI_UNSIGNED || (t) == MPI_FLOAT || (t) == MPI_DOUBLE || (t) == MPI_LONG_LONG_INT || \
     (t) == MPI_UNSIGNED_LONG_LONG || (t) == MPI_LONG)
@@ -16,11 +17,11 @@ int ncmpii_buftype_decode(int ndims, nc_type xtype, const MPI_Offset *count, MPI
                           MPI_Datatype *etype, int *esize, MPI_Offset *nelems, MPI_Offset *xnbytes, int *isContig)
 __CPROVER_requires(__CPROVER_is_fresh(etype, sizeof(*etype)) && __CPROVER_is_fresh(esize, sizeof(int)) && __CPROVER_is_fresh(nelems, sizeof(MPI_Offset)) &&
                    __CPROVER_is_fresh(xnbytes, sizeof(MPI_Offset)) && __CPROVER_is_fresh(isContig, sizeof(int)))
-__CPROVER_assigns(*etype, *esize, *nelems, *xnbytes, *isContig, g_decoded_nbytes)
+__CPROVER_assigns(*etype, *esize, *nelems, *xnbytes, *isContig, g_decoded_nbytes, g_decoded_contig)
 __CPROVER_ensures(IMPLIES(__CPROVER_return_value == NC_NOERR, IS_TYPE_VALUE(*etype) && *esize >= 1 && *esize <= 8 && *nelems >= 0 && *xnbytes >= 0 &&
                   (*xnbytes == 0) == (*nelems == 0) && *xnbytes < ((long long)1 << 40) && (*isContig == 0 || *isContig == 1)))
 __CPROVER_ensures(__CPROVER_return_value != NC_ERANGE)
-__CPROVER_ensures(g_decoded_nbytes == ((__CPROVER_return_value == NC_NOERR) ? *xnbytes : 0))
+__CPROVER_ensures(g_decoded_nbytes == ((__CPROVER_return_value == NC_NOERR) ? *xnbytes : 0) && g_decoded_contig == ((__CPROVER_return_value == NC_NOERR) ? *isContig : 0))
 ;
 int ncmpii_need_convert(int format, nc_type xtype, MPI_Datatype itype)
 __CPROVER_assigns()
